@@ -26,7 +26,7 @@ func kwalkMain(args []string) int {
 	careful := fs.Bool("careful", false, "")
 	fs.Parse(args)
 
-	u := &kUniverse{keys: []string{"a", "b", "c", "d"}, versions: []int{NN, -1, 0, 1, 2, 3, 4, 5, 6, 7, 8, 9},
+	u := &kUniverse{keys: []string{"a", "b", "c", "d"}, versions: []int{NN, -1, 0, 1, 2, 3, 4, 5, 6, 7, 8, 9, 200999, 201000, 201001, 300999, 301000, 301001}, // ... 2^31-1, 2^31, 2^31+1, 2^32-1, 2^32, 2^32+1
 		labels: []int{0, 1, 2}, filters: []string{"null", "all", "lx1", "lx0", "fnx0", "nlx1", "nsa"}}
 	for _, k := range u.keys {
 		for _, v := range u.versions {
